@@ -40,6 +40,10 @@ type zzTplAttr struct {
 	// "" nothing; "and-name-in" / "and-name-notin": the same term also has matchFields
 	// metadata.name In / NotIn [node0]; "or-name-in": a second (ORed) term matchFields metadata.name In [node0]
 	fieldShape string
+	// noRequired (only without affinityOp / fieldShape): the template has a node affinity section without a
+	// required part — "preferred-only" (one preferred term on key k) or "empty" (nodeAffinity: {}); neither
+	// restricts eligibility, and the node selector still applies
+	noRequired string
 }
 
 // zzEligible: reference predicate written from the statement of C01.
@@ -136,6 +140,14 @@ func zzTemplateFor(tpl zzTplAttr) *datadoghqv1alpha1.ExtendedDaemonSetReplicaSet
 			terms = append(terms, corev1.NodeSelectorTerm{MatchFields: byName(corev1.NodeSelectorOpIn)})
 		}
 		rs.Spec.Template.Spec.Affinity = &corev1.Affinity{NodeAffinity: &corev1.NodeAffinity{RequiredDuringSchedulingIgnoredDuringExecution: &corev1.NodeSelector{NodeSelectorTerms: terms}}}
+	}
+	if tpl.affinityOp == "" && tpl.fieldShape == "" && tpl.noRequired != "" {
+		na := &corev1.NodeAffinity{}
+		if tpl.noRequired == "preferred-only" {
+			na.PreferredDuringSchedulingIgnoredDuringExecution = []corev1.PreferredSchedulingTerm{{Weight: 1, Preference: corev1.NodeSelectorTerm{
+				MatchExpressions: []corev1.NodeSelectorRequirement{{Key: zzLabelKey, Operator: corev1.NodeSelectorOpIn, Values: []string{"w"}}}}}}
+		}
+		rs.Spec.Template.Spec.Affinity = &corev1.Affinity{NodeAffinity: na}
 	}
 	switch tpl.tolerates {
 	case "k":
@@ -234,7 +246,21 @@ func zzPickTplAttr() zzTplAttr {
 	case "or-name-in":
 		tpl.fieldShape = "or-name-in"
 	}
+	if tpl.affinityOp == "" && tpl.fieldShape == "" {
+		tpl.noRequired = zzPickNoRequired()
+	}
 	return tpl
+}
+
+// zzPickNoRequired: a node affinity section without a required part (see zzTplAttr.noRequired).
+func zzPickNoRequired() string {
+	switch nondet.String("tpl.nodeAffinityWithoutRequired", "", "preferred-only", "empty") {
+	case "preferred-only":
+		return "preferred-only"
+	case "empty":
+		return "empty"
+	}
+	return ""
 }
 
 // ZZ_C01_eligibility: a node enters the per-node map exactly when it satisfies the
